@@ -151,6 +151,45 @@ CHECKS = {
         note="trusted: vf/oracle/families.py (validated against the shipped tables on S_1..S_5 at design time), enumeration above length 7 by the library",
         ref="DESIGN.md §4 C16",
     ),
+
+    "C17": dict(
+        technique="runtime monitoring: recorders on bisc and its sub-functions; every output decided against the input by oracle mesh "
+                  "containment (sound / complete / irredundant), private containment test vs mesh containment, clean-up bases vs the bad "
+                  "permutations they were run on, representation metamorphism",
+        text="1200 (quick) / 8000 (thorough) runs on arbitrary finite sets (random subsets at several densities, avoidance sets of random "
+             "mesh patterns, complements, unions), n <= 5 (6), m <= 4, all three input representations; auto_bisc on 4 properties over "
+             "S_0..S_8 in the thorough tier. Exploration only.",
+        note="trusted: vf/oracle/mesh.py; dictionary inputs have every key 0..n",
+        ref="DESIGN.md §4 C17",
+    ),
+    "C18": dict(
+        technique="runtime monitoring: recorders on the shading-lemma tests, the table, point insertion, shade and ascii_plot; every positive "
+                  "verdict / insertion result decided semantically over ALL permutations up to length N by cell-geometry containment; "
+                  "independent plot parser",
+        text="Every mesh pattern of length <=2 with every cell and adjacent pair, 1600 sparse length-3 patterns (20000 + length 4 thorough), "
+             "N=6 (7). Only soundness of positive lemma verdicts is judged. Exploration only.",
+        note="trusted: vf/oracle/mesh.py",
+        ref="DESIGN.md §4 C18",
+    ),
+    "C19": dict(
+        technique="runtime monitoring: recorders on applies() of every strategy and on find_strategies, decided by a second implementation "
+                  "of the stated hypotheses (geometry oracle for the 8 images, definitional containment, shapes from structure.py); "
+                  "metamorphic workload (order, repetition, container, symmetries, quick vs slow)",
+        text="960 (quick) / 6000 (thorough) bases constructed around the core patterns with shaped and near-miss extensions, pushed through "
+             "random symmetries. Exploration only.",
+        note="bases containing the length-1 permutation are outside the domain of the shape helpers; the simples strategy is compared with the class test (decided in C16)",
+        ref="DESIGN.md §4 C19",
+    ),
+    "C20": dict(
+        technique="runtime monitoring: operation histories against a last-write model in temp directories, sys.addaudithook recorder of "
+                  "file opens, DFA store histories decided by own language-equivalence search and word semantics, shipped data verified "
+                  "against independent property definitions",
+        text="200 (2000) file histories with overwrites, deletions and seven kinds of corruption; 40 (300) DFA-store histories with chdir and "
+             "memo clearing; all 28 shipped files: keys, partition, no duplicates, good = property up to length 6 (quick) / full length "
+             "(thorough). Exploration only.",
+        note="the two data files emptied by the environment must read as invalid and are otherwise skipped",
+        ref="DESIGN.md §4 C20",
+    ),
 }
 
 NOT_YET = {}
